@@ -147,6 +147,10 @@ func MetaOf(m *sqlprog.Model) []zcrud.TableMeta {
 			if cols := commentCols(c, "_SELECT KEY"); cols != nil {
 				tm.Keys = append(tm.Keys, cols)
 			}
+			// gomacro:QUERY <Name> UPDATE <T> SET <A> = $v$ WHERE <B> = $w$
+			if f := strings.Fields(c); len(f) >= 12 && f[0] == "gomacro:QUERY" && f[2] == "UPDATE" && f[4] == "SET" && f[8] == "WHERE" {
+				tm.Queries = append(tm.Queries, []string{f[1], f[5], f[9]})
+			}
 		}
 		out = append(out, tm)
 	}
@@ -190,6 +194,9 @@ func expectedFuncs(tm zcrud.TableMeta) map[string]string {
 			continue
 		}
 		fs["SelectByUnique/"+strings.Join(u, "And")] = "Select" + n + "By" + strings.Join(u, "And")
+	}
+	for _, q := range tm.Queries {
+		fs["Query/"+strings.Join(q, "/")] = q[0]
 	}
 	for _, k := range tm.Keys {
 		fs["SelectByKeys/"+strings.Join(k, "And")] = "Select" + n + "sBy" + strings.Join(k, "And")
@@ -746,7 +753,7 @@ func Run(c *core.Ctx, replay string) (*core.Result, error) {
 		opList = append(opList, fmt.Sprintf("%s:%d", k, n))
 	}
 	sort.Strings(opList)
-	for _, need := range []string{"Insert", "InsertMany", "Update", "Select", "SelectMany", "SelectAll", "DeleteById", "DeleteByIDs", "SelectByFK", "DeleteByFK", "Delete"} {
+	for _, need := range []string{"Query", "Insert", "InsertMany", "Update", "Select", "SelectMany", "SelectAll", "DeleteById", "DeleteByIDs", "SelectByFK", "DeleteByFK", "Delete"} {
 		if ops[need] == 0 && replay == "" && ran > 0 {
 			return nil, core.Inconcl("operation %s was never exercised", need)
 		}
